@@ -144,8 +144,9 @@ class StateMachine(metaclass=StateMachineMetaclass):
 
         self._listeners: Dict[Any, Any] = {}
 
-        self._register_callbacks([])
-        self.add_listener(*listeners.keys())
+        # register the listeners together with the machine and the model, as `__init__` does: explicitly
+        # named callbacks may be provided by a listener only
+        self._register_callbacks(list(listeners.keys()))
         self._engine = self._get_engine(rtc)
         self._engine.start()
 
